@@ -167,6 +167,20 @@ fn answer(line: &str, cap: usize) -> String {
             format!("{} peak={}", r, peak)
         }
         "concprove" => catch_unwind(AssertUnwindSafe(|| emit::concprove_line(line))).unwrap_or_else(|_| "panic".to_string()),
+        "provefail" => {
+            // `provefail <k> prove ...`: the caller's RNG fails after k draws; no proof may come out for k < 14
+            let mut it = line.splitn(3, ' ');
+            let (_, k, rest) = (it.next(), it.next().and_then(|k| k.parse::<usize>().ok()), it.next());
+            match (k, rest) {
+                (Some(k), Some(rest)) => {
+                    util::RNG_BUDGET.with(|b| b.set(Some(k)));
+                    let r = catch_unwind(AssertUnwindSafe(|| emit::prove_line(rest))).unwrap_or_else(|_| "panic".to_string());
+                    util::RNG_BUDGET.with(|b| b.set(None));
+                    r
+                }
+                _ => "bad-request".to_string(),
+            }
+        }
         "prove" => catch_unwind(AssertUnwindSafe(|| emit::prove_line(line))).unwrap_or_else(|_| "panic".to_string()),
         "verify" | "vroundtrip" | "proofdec" => {
             let toks: Vec<&str> = line.split(' ').filter(|s| !s.is_empty()).collect();
